@@ -14,6 +14,9 @@ func TestProp_Codec(t *testing.T)  { PartCodec.Run(t) }
 func TestProp_Ranges(t *testing.T) { PartRange.Run(t) }
 func TestProp_Setup(t *testing.T)  { PartSetup.Run(t) }
 
+// One longer history of string conversions per case: harness-built strings, kept strings, malformed strings.
+func TestProp_Strings(t *testing.T) { PartStrings.Run(t) }
+
 // The codec functions from several goroutines at once: judged by their answers here, and run once more from the
 // binary built with -race (the driver runs TestRace_* from that binary only).
 func TestProp_Concurrent(t *testing.T) { PartConc.Run(t) }
@@ -37,6 +40,7 @@ func TestReplay(t *testing.T) {
 	PartRange.Replay(t, 1)
 	PartSetup.Replay(t, 1)
 	PartCalendar.Replay(t, 1)
+	PartStrings.Replay(t, 1)
 	PartConc.Replay(t, 50)
 	PartConcRace.Replay(t, 50)
 }
